@@ -1418,6 +1418,9 @@ func (c *Compiler) compilePatternMatch(pattern ast.Pattern, matchVarIdx int) ([]
 	case ast.ObjectPattern:
 		// For object patterns, we need to check if the value is an object
 		// and if it has all the required fields
+		// (not done yet: the reads below fail on a non-object or a missing
+		// field instead of moving on to the next case)
+		c.limitations = append(c.limitations, Limitation{Construct: "object pattern in match"})
 		for _, field := range p.Fields {
 			// Load match value
 			c.emitWithOperand(vm.OpLoadVar, uint32(matchVarIdx))
@@ -1451,6 +1454,8 @@ func (c *Compiler) compilePatternMatch(pattern ast.Pattern, matchVarIdx int) ([]
 	case ast.ArrayPattern:
 		// For array patterns, check length and match elements
 		// This is a simplified implementation
+		// (no type or length test, and ...rest binds the whole array)
+		c.limitations = append(c.limitations, Limitation{Construct: "array pattern in match"})
 		for idx, elemPattern := range p.Elements {
 			// Load match value
 			c.emitWithOperand(vm.OpLoadVar, uint32(matchVarIdx))
